@@ -16,6 +16,7 @@ RULE = ("four drivers: (1) StandardCombi on Trapezoidal(boundary on/off)/Simpson
         "current scheme and with evaluate_final_combi() on a deep copy; at the end with a twin run using reevaluate_at_end=True "
         "and with sum w_i f(p_i) over get_points_and_weights(). distinct = digest(driver, configuration, number of evaluations); "
         "non-trivial = >=2 evaluations (adaptive drivers) or lmax>lmin (standard)")
+RULE += (" " + 'Grid variety: (3) runs on GlobalTrapezoidalGrid and on GlobalHighOrderGrid (max_degree 2/3/5, split_up on/off; the surplus grid stays trapezoidal), (4) on Trapezoidal and on the high-order Clenshaw-Curtis / Gauss-Legendre grids with automatic_extend_split (parent-estimation path).')
 REQUIRED = ["recomputation_standard", "points_and_weights_standard", "recomputation_dimadaptive", "recomputation_dimwise",
             "final_combi_on_copy", "reevaluate_twin", "points_and_weights_dimwise", "recomputation_extsplit"]
 MIN_NONTRIVIAL = {"quick": 120, "thorough": 1500}
